@@ -14,18 +14,18 @@
 EXTENDS Integers, Sequences, FiniteSets, TLC, Json, IOUtils
 Obs == ndJsonDeserialize(IOEnv.TRACE_FILE)
 Comps == <<"err", "pw", "regs", "imem", "ram", "lcd", "kbd", "timers", "irq", "cnt">>
-\* components that are records are compared field by field, and the differing field is named ("kbd.kil")
-SubDiff(c, x, y) == IF c \in {"kbd", "timers", "irq", "cnt", "regs"} /\ DOMAIN x = DOMAIN y
-                    THEN LET fs == {f \in DOMAIN x : x[f] # y[f]} IN c \o "." \o (CHOOSE f \in fs : TRUE)
-                    ELSE c
-FirstDiff(a, b) == LET ds == {i \in 1..Len(Comps) : a[Comps[i]] # b[Comps[i]]} IN
-                   IF ds = {} THEN "" ELSE LET c == Comps[CHOOSE i \in ds : \A j \in ds : i <= j] IN SubDiff(c, a[c], b[c])
+\* components that are records are compared field by field; every differing field is reported ("kbd" + {"kil"})
+SubFields(c, x, y) == IF c \in {"kbd", "timers", "irq", "cnt", "regs"} /\ DOMAIN x = DOMAIN y THEN {f \in DOMAIN x : x[f] # y[f]} ELSE {}
+FirstComp(a, b) == LET ds == {i \in 1..Len(Comps) : a[Comps[i]] # b[Comps[i]]} IN
+                   IF ds = {} THEN "" ELSE Comps[CHOOSE i \in ds : \A j \in ds : i <= j]
 Verdict(r) ==
-  IF r.loaderr = 1 THEN <<"Loads", 0, "">>
-  ELSE IF Len(r.orig) # Len(r.rest) THEN <<"SameFuture", 0, "length">>
-  ELSE LET bad == {k \in 1..Len(r.orig) : FirstDiff(r.orig[k], r.rest[k]) # ""} IN
-       IF bad = {} THEN <<"ok", 0, "">>
-       ELSE LET k == CHOOSE k \in bad : \A j \in bad : k <= j IN <<IF r.kind = "cross" THEN "CrossLoad" ELSE "SameFuture", k, FirstDiff(r.orig[k], r.rest[k])>>
+  IF r.loaderr = 1 THEN <<"Loads", 0, "", {}>>
+  ELSE IF Len(r.orig) # Len(r.rest) THEN <<"SameFuture", 0, "length", {}>>
+  ELSE LET bad == {k \in 1..Len(r.orig) : FirstComp(r.orig[k], r.rest[k]) # ""} IN
+       IF bad = {} THEN <<"ok", 0, "", {}>>
+       ELSE LET k == CHOOSE k \in bad : \A j \in bad : k <= j
+                c == FirstComp(r.orig[k], r.rest[k])
+            IN <<IF r.kind = "cross" THEN "CrossLoad" ELSE "SameFuture", k, c, SubFields(c, r.orig[k][c], r.rest[k][c])>>
 BadSet == {<<Obs[k].id>> \o Verdict(Obs[k]) : k \in {j \in 1..Len(Obs) : Verdict(Obs[j])[1] # "ok"}}
 ASSUME PrintT(<<"JUDGE", Len(Obs), BadSet>>)
 VARIABLE dummy
